@@ -14,7 +14,7 @@ PROP = {
         "harness": ["harness/C20_tsan.cpp"],
         "san": ["-fsanitize=thread"],
         "ldflags": ["-lpthread"],
-        "targets": [{"name": "tsan", "quick": 40000, "thorough": 600000, "maxlen": 200, "hang_s": 60, "workers": 8}],
+        "targets": [{"name": "tsan", "quick": 40000, "thorough": 600000, "maxlen": 200, "hang_s": 20, "workers": 8}],
     }],
 }
 
